@@ -188,6 +188,7 @@ structure Mon where
   fundedAtTick : Nat := 0                   -- seated-in players with chips when the continue handler ran
   expectOpen : Bool := false                -- the gate was set up by the continue handler with ≥ 2 funded players
   lastArgs : List String := []              -- arguments and result (`res:<token>`) of the operation being observed
+  openedSince : Bool := false   -- a hand was opened since the last observation (its blinds were published)
 
 def argNat (ts : List String) (k : String) : Option Nat :=
   ts.findSome? (fun t => match t.splitOn "=" with | [a, b] => if a == k then b.toNat? else none | _ => none)
@@ -209,7 +210,7 @@ def noteOp (m : Mon) (label : String) (args : List String) (ok : Bool) (prev : O
   | "fire.opened" =>
     -- the blinds in force at the open are those of the table as last observed (set here, at the operation, so that the
     -- options line may come before or after the observation that follows the open)
-    (match prev with | some p => { m with openBlind := some p.blind } | none => m)
+    (match prev with | some p => { m with openBlind := some p.blind, openedSince := true } | none => { m with openedSince := true })
   | "close" => { m with closedSeen := true }
   | "release" => { m with closedSeen := true }
   | "pause" => { m with pausedByUser := true }
@@ -322,6 +323,11 @@ def onObs (m : Mon) (label : String) (ok : Bool) (membership : Bool) (prev : Opt
     | some p =>
       if !(label == "reserve" || label == "update" || label == "leave" || label == "new" || label == "burst-end") &&
          !(p.players.map (·.id) == o.players.map (·.id)) then ["C03.player-list-changed-without-a-membership-call"] else []
+    | none => []
+  -- the blinds published for a hand are written at its open and by nothing else (a level change affects later hands only)
+  let v12g : List String := match prev with
+    | some p => if label != "fire.opened" && label != "new" && !m.openedSince && o.gameBlind != p.gameBlind
+                then ["C12.published-hand-blinds-changed-without-an-open"] else []
     | none => []
   -- a player who has just brought chips in (re-buy, add-on) is one the seat manager counts as having chips: that flag is
   -- what makes a busted player eligible again
@@ -494,6 +500,6 @@ def onObs (m : Mon) (label : String) (ok : Bool) (membership : Bool) (prev : Opt
          then ["C12.hand-blinds-changed-while-the-hand-runs"] else [])
       else []
     | none => []
-  (m, v3 ++ v3a ++ v3b ++ v1 ++ v5r ++ vl ++ vh)
+  ({ m with openedSince := false }, v3 ++ v3a ++ v3b ++ v1 ++ v5r ++ v12g ++ vl ++ vh)
 
 end TBSpec
